@@ -519,6 +519,13 @@ def specials_c08():
         it = [("PUSH", 7)] + deep(cd0, [("PUSH", 1)], cd0) + ["SSTORE"] + deep(cd0, [("PUSH", 0)], cd0) + ["SLOAD"] + out_(0)
         it += deep(cd0, i0, cd0) + ["SLOAD"] + out_(1) + deep(cd0, [("PUSH", 1)], cd0) + ["SLOAD"] + out_(2)
         sp("struct-array-mapping-field", it + ret(3), "nary-sum", (), layout)
+        # far (but still recognisable) constant offsets from a runtime-registered hash: +65534, +65535, across a 2^16 block
+        for pfar in (1, 1000):
+            hf = gen.keccak_int(gen._k32(pfar))
+            for c in (65534, 65535):
+                it = arr_rt(pfar) + ["POP", ("PUSH", 7), ("PUSH", (hf + c) % (1 << 256), 32), "SSTORE"]
+                it += arr_rt(pfar) + cd0 + [("PUSH", 0x1FFFF), "AND", "ADD", "SLOAD"] + out_(0)
+                sp(f"far-offset-{c}-p{pfar}", it + ret(1), f"far-offset-{c}", [gen._k32(pfar)], layout)
         # read a constant array slot first (registry miss), then hash at runtime, store with a symbolic index, read the constant again
         p_far = 1000
         h_far = gen.keccak_int(gen._k32(p_far))
